@@ -244,12 +244,12 @@ def split_output(text):
 
 def run_watched(cmd, outfile, timeout, envx=None):
     """Run vdrive; kill it when the whole shard exceeds `timeout` or when its output file has not grown for
-    VERIF_STALL_S seconds (default 120): vdrive flushes at the start and the end of every case, so a silent output means
+    VERIF_STALL_S seconds (default 60): vdrive flushes at the start and the end of every case, so a silent output means
     one case is hanging (a spinning or dead-locked implementation) - reported as HANG for that case."""
     e = dict(os.environ)
     if envx:
         e.update(envx)
-    stall = float(os.environ.get('VERIF_STALL_S', '120'))
+    stall = float(os.environ.get('VERIF_STALL_S', '60'))
     p = subprocess.Popen(cmd, env=e, stdout=subprocess.PIPE, stderr=subprocess.PIPE, text=True)
     t0 = time.time()
     last_size, last_change = -1, t0
